@@ -153,6 +153,22 @@ func BuildPool() []*Item {
 		f, _ := dst.GetFrame(0)
 		add("htj2k-"+itoa(i), "j2k", f, inf(im), "j2k-ht", "j2k-parser", "j2k", "codec:201", "codec:202", "codec:203")
 	}
+	// HTJ2K frames that are one code-block of 32x32 / 64x64 almost-empty samples (no decomposition):
+	// the clean-up pass is dominated by its MEL run-length stream (TestHTBlockTails)
+	for i, side := range []int{32, 64} {
+		im := &gen.Image{W: side, H: side, C: 1, P: 8, Class: "sparse", Seed: uint64(70 + i)}
+		cd, _ := dcodec.GetGlobalRegistry().GetCodec(transfer.HTJ2KLossless)
+		fi := &imagetypes.FrameInfo{Width: uint16(im.W), Height: uint16(im.H), BitsAllocated: 8, BitsStored: 8, HighBit: 7, SamplesPerPixel: 1}
+		src, dst := codec.NewTestPixelData(fi), codec.NewTestPixelData(fi)
+		_ = src.AddFrame(im.Bytes())
+		par := htj2k.NewHTJ2KParameters()
+		par.NumLevels = 0
+		if err := cd.Encode(src, dst, par); err != nil {
+			panic("harness: htj2k block pool: " + err.Error())
+		}
+		f, _ := dst.GetFrame(0)
+		add("htj2k-block"+itoa(side), "j2k", f, inf(im), "j2k-ht", "j2k", "codec:201")
+	}
 	// third-party HTJ2K fixtures, truncated to 4 KiB (kept as parser / decoder food)
 	fx, _ := filepath.Glob("/repo/test-data/htj2k/interop/*/fo_htj2k_lossless.j2c")
 	sort.Strings(fx)
